@@ -156,10 +156,23 @@ def check(case, ctx):
     out = fm.Output(name="o", info=pinfo)
     inp = fm.Input(name="i", info=cinfo)
     out >> ada >> inp
+    inp2 = None
+    if case.get("twin") and case["tgt"]["kind"] == "struct" and case["tgt"]["cfg"]["cls"] != "esri" and meta == "both" and tmask is None:
+        # a second consumer of the same adapter: equal grid, but flattened in the other order
+        cfg2 = dict(case["tgt"]["cfg"], order=("C" if torder == "F" else "F"))
+        inp2 = fm.Input(name="j", info=fm.Info(time=hs.T0, grid=hg.build(cfg2), units="m", mask=fm.Mask.FLEX))
+        ada >> inp2
+        ctx.event("two-targets-different-order")
     inp.ping()
+    if inp2 is not None:
+        inp2.ping()
     info = f" | case {case}"
     try:
+        if inp2 is not None and case.get("twin") == "first":
+            inp2.exchange_info()
         inp.exchange_info()
+        if inp2 is not None and case.get("twin") != "first":
+            inp2.exchange_info()
     except (fm.FinamMetaDataError, fm.FinamDataError) as e:
         if method == "linear" and not fill and tmask is not None:
             ctx.event("linear-domain-not-covered(refused)")  # documented refusal: fixed target mask not covered by the hull
@@ -181,7 +194,15 @@ def check(case, ctx):
         ctx.violation("meta-source-grid", f"output grid {out.info.grid!r} is not the source grid ({meta})" + info)
         return
     out.push_data(payload, hs.T0)
+    if inp2 is not None:
+        r2 = inp2.pull_data(hs.T0)  # same shape (order only affects flattening): must carry the same located values
     r = inp.pull_data(hs.T0)
+    if inp2 is not None and not (
+        np.array_equal(np.ma.getmaskarray(r2.magnitude), np.ma.getmaskarray(r.magnitude))
+        and np.array_equal(np.ma.getdata(r2.magnitude)[~np.ma.getmaskarray(r2.magnitude)], np.ma.getdata(r.magnitude)[~np.ma.getmaskarray(r.magnitude)])
+    ):
+        ctx.violation("two-targets-differ", "two consumers of one regridding adapter with equal grids (different flattening order) receive different fields" + info)
+        return
     m = r.magnitude
     if tuple(m.shape) != (1,) + tuple(tshape):
         ctx.violation("shape", f"result shape {m.shape}, target data shape {tshape}" + info)
@@ -282,6 +303,7 @@ def nearest_case(draw):
         "method": "nearest",
         "fill": False,
         "meta": draw(st.sampled_from(["both", "both", "consumer-open", "producer-open"])),
+        "twin": draw(st.sampled_from([None, None, "first", "second"])),
     }
 
 
@@ -318,6 +340,7 @@ def linear_case(draw):
         "method": "linear",
         "fill": draw(st.booleans()),
         "meta": draw(st.sampled_from(["both", "both", "consumer-open", "producer-open"])),
+        "twin": draw(st.sampled_from([None, None, "first", "second"])),
     }
 
 
